@@ -127,6 +127,9 @@ def s_operator_table(_ctx):
             known = False
         if not known:
             continue  # an entry for a name that is not an ONNX operator can never be used: harmless
+        sch = onnx.defs.get_schema(op_type)
+        agg.ob("C13.export.operator_table.operator_form_only_for_ops_without_attributes", len(sch.attributes) == 0,
+               f"{op_type!r} is printed as {text!r} but its schema has attributes {sorted(sch.attributes)}: the infix form cannot carry them", cl, case=op_type)
         node = pyops.get(t)
         agg.ob("C13.export.operator_table.operator_text_is_a_python_operator", node is not None, f"{op_type!r} -> {text!r}", cl, case=op_type)
         if node is None:
